@@ -266,7 +266,7 @@ impl Kernel {
                 self.advance(pid);
             }
             Op::Cat { inp, out, chunk } => {
-                let mut buf = vec![0u8; chunk.max(1)];
+                let mut buf = vec![0u8; self.avail_hint(pid, inp, chunk.max(1))];
                 match self.try_read(pid, inp, &mut buf, None) {
                     Ok(0) => {
                         self.note_eof(pid, inp);
@@ -282,7 +282,7 @@ impl Kernel {
                 }
             }
             Op::Amplify { inp, out, err, chunk, k_out, k_err, so, se } => {
-                let mut buf = vec![0u8; chunk.max(1)];
+                let mut buf = vec![0u8; self.avail_hint(pid, inp, chunk.max(1))];
                 match self.try_read(pid, inp, &mut buf, None) {
                     Ok(0) => {
                         self.note_eof(pid, inp);
@@ -306,7 +306,7 @@ impl Kernel {
                 }
             }
             Op::Filter { inp, out, err, chunk, tag, line_every, id } => {
-                let mut buf = vec![0u8; chunk.max(1)];
+                let mut buf = vec![0u8; self.avail_hint(pid, inp, chunk.max(1))];
                 match self.try_read(pid, inp, &mut buf, None) {
                     Ok(0) => {
                         self.note_eof(pid, inp);
@@ -424,8 +424,19 @@ impl Kernel {
         }
     }
 
+    /// bytes a read of `fd` could return right now (bounds buffer allocation; at least 1)
+    fn avail_hint(&self, pid: i32, fd: i32, want: usize) -> usize {
+        let a = match self.desc_of(pid, fd).map(|d| self.descs[d].kind) {
+            Some(DescKind::PipeR(p)) => self.pipes[p].avail(),
+            Some(DescKind::File(f)) => self.files[f].data.len(),
+            _ => 0,
+        };
+        want.min(a.max(1))
+    }
+
     /// returns (bytes, eof_or_error)
     fn proc_read(&mut self, pid: i32, fd: i32, n: usize) -> (usize, bool) {
+        let n = self.avail_hint(pid, fd, n);
         let mut buf = vec![0u8; n];
         match self.try_read(pid, fd, &mut buf, None) {
             Ok(0) => {
